@@ -323,6 +323,22 @@ pub fn run(ctx: &mut Ctx) {
             }
         }
     }
+    // ---- long blocks: 90..260 lines with distinct custom names, then repetitions of early and late names and a
+    // few recognised fields: every field is kept, the last occurrence wins, whatever the count
+    if ctx.shard == 1 % ctx.nshards {
+        for n in [90usize, 99, 100, 101, 102, 128, 200, 256, 260] {
+            let mut lines: Vec<Vec<u8>> = (0..n).map(|i| format!("X-Field-{}: v{}", i, i).into_bytes()).collect();
+            lines.push(b"X-Field-0: again".to_vec());
+            lines.push(format!("X-Field-{}: again", n - 1).into_bytes());
+            lines.push(b"X-Late: 1".to_vec());
+            lines.push(b"Content-Length: 7".to_vec());
+            lines.push(b"X-Late: 2".to_vec());
+            ctx.rep.count("long_blocks");
+            if check_block(ctx, &lines) {
+                bad += 1;
+            }
+        }
+    }
     // ---- Encoding::try_from directly
     if ctx.shard == 0 {
         for v in values_for("Accept-Encoding") {
